@@ -198,3 +198,30 @@ def apalache(module, constants, init, inv, length, timeout=600):
     if not m or m.group(1) not in ("NoError", "Error"):
         raise common.MachineryFailure("Apalache failed on %s:\n%s" % (module, "\n".join(text.splitlines()[-15:])))
     return m.group(1), round(time.time() - t0, 2)
+
+
+def tlaps(module, timeout=900, deps=()):
+    """Check the proofs of spec/tlaps/<module>.tla with the TLA+ proof system (in a scratch copy: tlapm writes its cache next
+    to the module).  Returns the number of obligations proved; raises if any is not."""
+    import shutil
+    src = os.path.join(common.SPEC, "tlaps", module + ".tla")
+    d = os.path.join(common.scratch(), "tlaps%d" % (_n[0] + 1))
+    _n[0] += 1
+    os.makedirs(d, exist_ok=True)
+    shutil.copy(src, d)
+    for dep in deps:                       # specification modules the proof module extends
+        shutil.copy(os.path.join(common.SPEC, dep + ".tla"), d)
+    e = dict(os.environ)
+    e.pop("JAVA_TOOL_OPTIONS", None)
+    try:
+        p = subprocess.run(["tlapm", "--cleanfp", module + ".tla"], cwd=d, env=e, stdout=subprocess.PIPE, stderr=subprocess.STDOUT, timeout=timeout)
+    except subprocess.TimeoutExpired:
+        raise common.MachineryFailure("tlapm timed out on %s" % module)
+    finally:
+        text = ""
+    text = p.stdout.decode("utf-8", "replace")
+    shutil.rmtree(d, ignore_errors=True)
+    m = re.search(r"All (\d+) obligations? proved", text)
+    if not m:
+        raise common.MachineryFailure("tlapm did not prove %s:\n%s" % (module, "\n".join(text.splitlines()[-15:])))
+    return int(m.group(1))
